@@ -63,6 +63,10 @@ def gen(rng, tier):
         if ns:
             line += " vsrns=" + ns
         cases.append(dict(line=line, tags=[kind, pos.split(".")[0], form]))
+        if kind == "ing":
+            # the same Ingress claiming two hosts, alone or having lost its first / its second host to a rival
+            for ctx in ("twohosts", "losefirst", "loselast"):
+                cases.append(dict(line=line + " ctx=" + ctx, tags=[kind, pos.split(".")[0], form, ctx]))
     # end-to-end: store mutations delivered through the real event handlers and the real sync; after every burst each served
     # resource's files are compared with a fresh regeneration from the current stores
     m = 150 if tier == "quick" else 1500
